@@ -41,6 +41,8 @@ class Ctx:
         self.rules = {}   # rule id -> one-line statement of the rule
         self.assumptions = []
         self.trusted = []
+        self._keys = {}
+        self._dups = 0
 
     # ---- declaring
     def rule(self, rid, text):
@@ -70,6 +72,15 @@ class Ctx:
             loc = where(node)
         else:
             c, s, loc = construct or str(node), stmt or "", str(node)
+        key = (rule, c, s)
+        idx = self._keys.get(key)
+        if idx is not None:
+            # the same obligation reached on another path: keep one record, a refutation wins
+            self._dups += 1
+            if not ok and self.obs[idx].ok:
+                self.obs[idx] = Ob(rule, c, s, False, detail, loc, extra)
+            return bool(ok)
+        self._keys[key] = len(self.obs)
         self.obs.append(Ob(rule, c, s, bool(ok), detail, loc, extra))
         return bool(ok)
 
@@ -167,6 +178,7 @@ def finish(prop, cx, t0, tier, seed, explanation, level="other", err=None, repla
         "rule": "one obligation = one rule of the property evaluated on one construct (function, statement, call site, path or abstract case) of /repo's current source; distinct = distinct (rule, construct, statement) keys",
         "rules": by_rule,
         "counts": cx.counts,
+        "path_instances_merged": getattr(cx, "_dups", 0),
         "samples": shown,
         "samples_total": len(samples),
         "checker_cmd": f"./check {prop} --tier {tier}",
